@@ -16,7 +16,9 @@ SKIP_ATTRS = {"_state_name_to_default", "_device", "training"}
 
 
 def attr_val(v):
-    if isinstance(v, (torch.Tensor, bool, int, float, str)) or v is None:
+    if isinstance(v, torch.Tensor):
+        return [T("dtype:" + str(v.dtype).replace("torch.", "")), impl_val(v)]
+    if isinstance(v, (bool, int, float, str)) or v is None:
         return impl_val(v)
     if isinstance(v, (list, tuple)):
         return [attr_val(x) for x in v]
@@ -33,6 +35,10 @@ def full_state(m):
             continue
         out.append([T("k:" + k), attr_val(getattr(m, k))])
     return out
+
+
+def registered_state(m):
+    return [[T("k:" + k), attr_val(getattr(m, k))] for k in sorted(m._state_name_to_default)]
 
 
 def compute_val(m):
@@ -123,6 +129,9 @@ def c09_case(case, seed, how, pre, ncont):
     d = same(compute_val(m), compute_val(c))
     if d:
         return f"compute() differs right after {how}: {d}"
+    d = same(registered_state(m), registered_state(c))
+    if d:
+        return f"registered states (values, shapes, dtypes) differ right after {how}: {d}"
     cont = gen_updates(rng, call, ncont)
     for k, u in enumerate(cont):
         do_update(m, u)
